@@ -1,4 +1,5 @@
 """C17 — every CLI command runs, and search output matches the engine's answer."""
+import base64
 import json
 import os
 import random
@@ -31,19 +32,31 @@ PROP = dict(
                 "source as step lists and interpreted by the model; `spec_recognised` shows every expression of those steps has a meaning. Tie to the code: 23 "
                 "translator shape assertions pin the order validate < limit < load < engine < recovery(filter, truncate) < one AddEntry < nothing-found return "
                 "< stable re-sort < format switch, the colour helper and the NO_COLOR test; on every generated run the model's result block and history are "
-                "compared with the real binary's stdout bytes and history file, and independent monitors evaluate the property on the real outputs."),
+                "compared with the real binary's stdout bytes and history file, and independent monitors evaluate the property on the real outputs. "
+                "Props/C17b.lean: the JSON block is a JSON TEXT. With the string encoder fixed to `jsonStrModel` (Model/KeyJson.lean's model of encoding/json's "
+                "appendString with EscapeHTML on, shared with C05's cache key) and the float encoder only assumed to write number tokens (`NumOK`), the block "
+                "parses, completely, with the RFC 8259 recogniser of Model/JsonText.lean to one array with one object per printed result whose members are those of "
+                "`json_shape` by name and order and whose strings read back as the database text with every invalid byte replaced by U+FFFD (`json_wellformed`, "
+                "`json_text_of_items`, `json_object`; for ALL byte strings: quotes, backslashes, controls, <>&, U+2028/9, invalid UTF-8, any rune); the indentation "
+                "bytes and the json names come from the regenerated tables (`layout_ok`, `names_ok`). Tie: the driver renders every string with `jsonStrModel` (the "
+                "real json.Marshal renderings are compared with it line by line), checks `NumOK` on the real rendering of every printed score and parses its own "
+                "block back on every run; the block bytes are compared with the binary's stdout; the real blocks are judged by Python's parser and by Go's "
+                "encoding/json (tool c17jsonparse: valid, UTF-8, array of objects, one per result, strings round-trip)."),
     level_note=("PARTIAL. Outside the model: process start-up, cobra/pflag argument parsing and flag merging (only the shorthand-clash panic condition is "
-                "modelled), the terminal, encoding/json and strconv (string / number renderings enter as oracle values from the same tree), yaml.v3, the "
+                "modelled), the terminal, strconv and encoding/json's float encoder (number renderings enter as oracle values from the same tree; `NumOK`), yaml.v3, the "
                 "wall clock. Database text that contains ESC is printed raw by the list and table formats (hypothesis of `no_escapes`; generated, run and "
                 "counted as `esc-in-printed-field`). The table format cuts long commands / categories at a byte offset and may print invalid UTF-8 "
                 "(observed, counted as `table-cut-inside-rune`; not part of the property). Sub-commands other than search are exercised for termination and "
                 "absence of panics only (generated argument vectors, closed or piped stdin, timeout); their outputs are C08/C09/C16's subject. Text outside the "
                 "result block (preamble, loader / recovery warnings, suggestions, timing line) is not modelled: its wording is free, the monitors only require that it "
-                "carries no ESC when colour is off and the database has none. Well-formedness of the JSON text itself is encoding/json's; it is re-parsed on every run. "
+                "carries no ESC when colour is off and the database has none. Well-formedness of the JSON text is proved for the modelled string encoder (Props/C17b); "
+                "the recogniser rejects \\uD800..\\uDFFF escapes (never written by the encoder), so it accepts a subset of RFC 8259; a NaN / Inf score would make Encode fail and "
+                "print nothing (outside `NumOK`; engine scores are finite, C10). "
                 "With --format json and an empty answer the command prints its prose suggestions and no array (observed, not covered by the property's wording)."),
     design_ref="DESIGN.md section 6, C17",
     rule=("sessions of 3-7 `wtf [search]` runs sharing an isolated HOME: generated --database files (valid lists with duplicates, platform tags, ESC / newline / "
-          "quote / unicode / over-long fields; empty list; empty file; missing file; malformed or wrong-shaped YAML -> embedded fallback database; optional personal "
+          "quote / unicode / over-long fields; texts that need every class of encoding/json escape: quotes, backslashes, <>&, U+2028/9, controls, DEL, runes outside the BMP, "
+          "invalid UTF-8 carried as !!binary scalars; one fixed session prints such an entry as JSON with and without -v; empty list; empty file; missing file; malformed or wrong-shaped YAML -> embedded fallback database; optional personal "
           "notebook) x queries (words of the database, misspellings, recovery-only fragments, nothing-found, rejected: empty / metacharacters / too long / "
           "control-only; padded, multi-argument, unicode) x --limit {absent,0,1,2,3,5,100,101,-1} x --format {absent,list,table,json,JSON,Table,bogus,empty} x -v x "
           "--no-color / NO_COLOR (also set-but-empty) x --platform / -p / --all-platforms / --no-cross-platform, flag spellings (--k=v, -kv, before/after the query, "
@@ -52,13 +65,18 @@ PROP = dict(
           "distinct = distinct (database, argv, environment, history-before) tuples"),
     assumptions=["engine answers are sorted by score, non-increasing (C01; re-checked on every run: `hypothesis:answers-sorted`)",
                  "the engine returns at most Limit results (C01; re-checked on every run)",
-                 "no printed database field contains ESC (for `no_escapes`; violated on purpose by some generated databases, which are then only compared with the model)"],
-    trusted_extra=["cobra/pflag parsing and flag-set merging; encoding/json and strconv renderings (oracle values taken from the same tree); the harness tool c17expect"],
+                 "no printed database field contains ESC (for `no_escapes`; violated on purpose by some generated databases, which are then only compared with the model)",
+                 "`json_wellformed`: the string encoder is `jsonStrModel` (compared with json.Marshal on every printed string) and the float encoder writes number tokens "
+                 "(`NumOK`, checked by the driver on every printed score)"],
+    trusted_extra=["cobra/pflag parsing and flag-set merging; strconv / encoding/json float renderings (oracle values taken from the same tree; strings are modelled); "
+                   "the harness tools c17expect and c17jsonparse"],
 )
 
 THEOREMS = ["Wtf.C17." + t for t in (
     "starts", "spec_recognised", "limit_in_force_pos", "rejects_bad_limit", "limit", "prints_engine", "prints_engine_ids", "block_of_answer",
-    "json_shape", "json_members", "no_escapes", "history_one", "history_untouched")]
+    "json_shape", "json_members", "no_escapes", "history_one", "history_untouched",
+    # Props/C17b.lean: the JSON block is a JSON text (string encoder modelled, parsed back by the recogniser of Model/JsonText.lean)
+    "layout_ok", "names_ok", "json_text_of_items", "json_wellformed", "json_object", "toValid_ascii")]
 
 ASSERTIONS = ["flags:commands-found", "flags:registrations", "flags:single-root",
               "cli:search-run", "cli:validate-query-first", "cli:validate-limit", "cli:flag-reads", "cli:load-with-recovery",
@@ -85,6 +103,79 @@ HOSTILE = ["\x1b[31mred\x1b[0m", "line1\nline2", 'say "hi"', "it's", "back\\slas
            "{json: [1,2]}", "%s %d %!", "<b>&amp;</b>", "a: b #c", " sep", "\x07bell"]
 
 
+# Texts that exercise encoding/json's string encoder (Props/C17b, Model/JsonText.lean): quotes, backslashes, the HTML set,
+# U+2028 / U+2029, control bytes (short escapes, \u00XX, DEL which is copied), runes outside the BMP, U+FFFD itself, and
+# INVALID UTF-8 (lone FF, truncated sequences, an overlong form, an encoded surrogate, a lead beyond F4).  Invalid bytes are
+# carried in the Python strings as surrogate escapes (U+DC80..U+DCFF) and written to the YAML file as `!!binary` scalars
+# (yaml.v3 decodes those into a Go string, whatever the bytes); everything else travels as a double-quoted YAML scalar with
+# the characters YAML would fold or refuse written as \uXXXX escapes.
+HOSTILE_JSON = ['q"uo"te', "back" + chr(92) + "slash" + chr(92), chr(92) + '"' + chr(92) + "n", "<script>&amp;</script>", "a<b>c&d",
+                "ls" + chr(0x2028) + "sep" + chr(0x2029) + "end", chr(0x2028), "\x01\x02ctl\x1f", "del\x7f", "\x08\x0c\x0b", "nul\x00byte",
+                "\U0001F600\U00010348", "max\U0010FFFF", "repl" + chr(0xFFFD) + "acement", "\u00e9\u0100\u0800\uffee",
+                "\udcff", "caf\udcc3", "\udce2\udc80 trunc", "\udce2\udc80", "\udced\udca0\udc80", "\udcc0\udcaf", "\udcf5\udc80\udc80\udc80",
+                "\udcf0\udc9f\udc98", "mixed \udcfe\u00e9\udc80<" + chr(0x2029) + '"', "\udce2\udc80\udca8"[:2] + chr(0x2028)]
+
+
+def yaml_scalar(s):
+    """one scalar of the database file (see HOSTILE_JSON)"""
+    if re.search("[\udc80-\udcff]", s):
+        return '!!binary "%s"' % base64.b64encode(s.encode("utf-8", "surrogateescape")).decode()
+    return re.sub("[\x7f-\x9f\u2028\u2029\ufeff\ufffe\uffff]", lambda m: chr(92) + "u%04x" % ord(m.group(0)), json.dumps(s, ensure_ascii=False))
+
+
+def yaml_flow_entry(e):
+    parts = ['"command": %s' % yaml_scalar(e["command"]), '"description": %s' % yaml_scalar(e["description"]),
+             '"keywords": [%s]' % ", ".join(yaml_scalar(k) for k in e["keywords"])]
+    if "niche" in e:
+        parts.append('"niche": %s' % yaml_scalar(e["niche"]))
+    if "platform" in e:
+        parts.append('"platform": [%s]' % ", ".join(yaml_scalar(k) for k in e["platform"]))
+    parts.append('"pipeline": %s' % ("true" if e.get("pipeline") else "false"))
+    return " {" + ", ".join(parts) + "}"
+
+
+def go_to_valid(b):
+    """what encoding/json makes of a Go string: every byte utf8.DecodeRune rejects becomes U+FFFD (one per BYTE; Python's
+    'replace' handler gives one per maximal invalid subpart)"""
+    out, i = [], 0
+    while i < len(b):
+        c = b[i]
+        n = 1 if c < 0x80 else 2 if 0xC2 <= c < 0xE0 else 3 if 0xE0 <= c < 0xF0 else 4 if 0xF0 <= c < 0xF5 else 0
+        chunk = b[i:i + n]
+        try:
+            if n == 0 or len(chunk) < n:
+                raise ValueError
+            out.append(chunk.decode("utf-8"))
+            i += n
+        except ValueError:   # UnicodeDecodeError is a ValueError
+            out.append(chr(0xFFFD))
+            i += 1
+    return "".join(out)
+
+
+def json_escapes_needed(b):
+    """the escape classes encoding/json needs for this text (distribution tags)"""
+    ks = set()
+    if b'"' in b or bytes([92]) in b:
+        ks.add("quote-backslash")
+    if any(c in b for c in b"<>&"):
+        ks.add("html")
+    if any(c < 0x20 for c in b):
+        ks.add("control")
+    if b"\xe2\x80\xa8" in b or b"\xe2\x80\xa9" in b:
+        ks.add("u2028")
+    try:
+        b.decode("utf-8")
+    except UnicodeDecodeError:
+        ks.add("invalid-utf8")
+    t = go_to_valid(b)
+    if any(ord(ch) > 0xFFFF for ch in t):
+        ks.add("astral")
+    if any(ord(ch) > 0x7F for ch in t):
+        ks.add("non-ascii")
+    return ks
+
+
 def gen_entry(rnd, hostile):
     ws = rnd.sample(WORDS, rnd.randint(2, 5))
     cmd = rnd.choice(TOOLS) + " " + rnd.choice(["-a", "-rf", "--all", "-x 1", ""]) + " " + ws[0]
@@ -105,6 +196,19 @@ def gen_entry(rnd, hostile):
         e["command"] += rnd.choice([" +%Y-%m-%d", " '%s %d'", " 100%", " %!v(MISSING)", " %%"])
         if rnd.random() < 0.5:
             e["description"] += rnd.choice([" 50% done", " %s", " %d items"])
+    if hostile and rnd.random() < 0.4:
+        hj = rnd.choice(HOSTILE_JSON)
+        f = rnd.choice(["command", "description", "niche", "keyword", "platform"])
+        if f == "command":
+            e["command"] += " " + hj
+        elif f == "description":
+            e["description"] += " " + hj
+        elif f == "niche":
+            e["niche"] = (e.get("niche", "") + hj)
+        elif f == "keyword":
+            e["keywords"] = e["keywords"] + [hj]
+        else:
+            e["platform"] = (e.get("platform") or ["linux"]) + [hj]
     if hostile and rnd.random() < 0.45:
         h = rnd.choice(HOSTILE)
         f = rnd.choice(["command", "description", "niche", "keyword", "platform", "long", "longmb", "mbshort"])
@@ -127,6 +231,15 @@ def gen_entry(rnd, hostile):
             e["command"] = (e["command"] + " ")[:40].ljust(40, "x") + "日本語ééé " + rnd.choice(WORDS)
             e["niche"] = "café-" * 4 + "éééé"
     return e
+
+
+def quoting_entry():
+    """every field needs encoding/json's escapes: quotes, backslash, the HTML set, U+2028/9, controls, DEL, a rune outside the
+    BMP, and invalid UTF-8 (lone FF, truncated E2 80, a lone C3, an overlong C0 AF, a lead F5)"""
+    return dict(command='quoting "escape" ' + chr(92) + ' <tag> & ' + chr(0x2028) + ' \x01\x7f \U0001F600 \udcff \udce2\udc80 tail',
+                description='Quoting every escape class: "q" ' + chr(92) + chr(92) + ' <> & ' + chr(0x2029) + ' \t \udcc3',
+                keywords=["quoting", "escape", 'k"w', "k\udcfew", "k" + chr(0x2028)], niche='esc"<\udcc0\udcaf>',
+                platform=["linux", "cross-platform", "p&\udcf5"], pipeline=False)
 
 
 def gen_db(rnd, kind):
@@ -157,19 +270,21 @@ def gen_db(rnd, kind):
     if kind == "hostile" and rnd.random() < 0.7:  # an entry whose text carries escape sequences (printed raw by list / table)
         es.insert(rnd.randrange(len(es) + 1), dict(command="printf '\x1b[31mcrimson\x1b[0m' paint", description="Paint crimson \x1b[1mglyphs\x1b[0m on the terminal",
                                                     keywords=["crimson", "paint", "\x1b[5mglyph"], niche="term\x1b[0m", platform=["linux", "cross-platform"], pipeline=False))
+    if kind == "hostile" and rnd.random() < 0.7:  # an entry whose every field needs encoding/json's escapes (Props/C17b)
+        es.insert(rnd.randrange(len(es) + 1), quoting_entry())
     if kind == "block":
         out = []
         for e in es:
-            out.append("- command: %s" % json.dumps(e["command"], ensure_ascii=False))
-            out.append("  description: %s" % json.dumps(e["description"], ensure_ascii=False))
-            out.append("  keywords: [%s]" % ", ".join(json.dumps(k, ensure_ascii=False) for k in e["keywords"]))
+            out.append("- command: %s" % yaml_scalar(e["command"]))
+            out.append("  description: %s" % yaml_scalar(e["description"]))
+            out.append("  keywords: [%s]" % ", ".join(yaml_scalar(k) for k in e["keywords"]))
             if "niche" in e:
-                out.append("  niche: %s" % json.dumps(e["niche"], ensure_ascii=False))
+                out.append("  niche: %s" % yaml_scalar(e["niche"]))
             if "platform" in e:
-                out.append("  platform: [%s]" % ", ".join(json.dumps(k, ensure_ascii=False) for k in e["platform"]))
+                out.append("  platform: [%s]" % ", ".join(yaml_scalar(k) for k in e["platform"]))
             out.append("  pipeline: %s" % ("true" if e["pipeline"] else "false"))
         return ("\n".join(out) + "\n").encode(), es
-    return json.dumps(es, ensure_ascii=False, indent=1).encode(), es  # JSON is YAML
+    return ("[\n" + ",\n".join(yaml_flow_entry(e) for e in es) + "\n]\n").encode(), es  # a YAML flow sequence (JSON plus !!binary scalars)
 
 
 def misspell(rnd, w):
@@ -204,6 +319,8 @@ def gen_query(rnd, entries):
     if c == "lexical":
         if "crimson" in ws and rnd.random() < 0.3:
             return c, [rnd.choice(["paint crimson", "crimson glyphs", "paint terminal"])]
+        if "quoting" in ws and rnd.random() < 0.35:
+            return c, [rnd.choice(["quoting escape", "quoting", "escape class"])]
         return c, [" ".join(rnd.sample(ws, min(len(ws), rnd.randint(1, 3))))]
     if c == "fuzzy":
         return c, [" ".join(misspell(rnd, w) for w in rnd.sample(ws, min(len(ws), rnd.randint(1, 2))))]
@@ -439,13 +556,13 @@ def expected_json(printed, docs, verbose):
     out = []
     for h in printed:
         d = docs[h["id"]]
-        o = dict(command=d.command.decode("utf-8", "replace"), description=d.description.decode("utf-8", "replace"))
+        o = dict(command=go_to_valid(d.command), description=go_to_valid(d.description))
         if verbose and d.keywords:
-            o["keywords"] = [x.decode("utf-8", "replace") for x in d.keywords]
+            o["keywords"] = [go_to_valid(x) for x in d.keywords]
         if d.niche:
-            o["category"] = d.niche.decode("utf-8", "replace")
+            o["category"] = go_to_valid(d.niche)
         if verbose and d.platform:
-            o["platforms"] = [x.decode("utf-8", "replace") for x in d.platform]
+            o["platforms"] = [go_to_valid(x) for x in d.platform]
         if verbose and h["score"] != 0:
             o["score"] = h["score"]
         out.append(o)
@@ -579,6 +696,31 @@ def search_stream(ctx, wtf, n_sessions, opts_fact, colors):
             r.env_nocolor = "NO_COLOR" in envx
             r.db_content = content
             runs.append(r)
+    # ---- one more session that is not drawn from the stream: the entry whose every field needs escaping, printed as JSON with and
+    #      without --verbose (so that every class of `json-string.*` below is reached at every seed)
+    sd = os.path.join(root, "sjson")
+    home, cwd = os.path.join(sd, "home"), os.path.join(sd, "cwd")
+    os.makedirs(os.path.join(home, ".config"), exist_ok=True)
+    os.makedirs(cwd, exist_ok=True)
+    jes = [dict(command="ls -la files", description="List files plainly", keywords=["list", "files"], pipeline=False), quoting_entry(),
+           dict(command="tar czf a.tgz dir", description="Compress a directory", keywords=["compress"], niche="files", pipeline=False)]
+    content = ("[\n" + ",\n".join(yaml_flow_entry(e) for e in jes) + "\n]\n").encode()
+    dbpath = os.path.join(sd, "db.yml")
+    open(dbpath, "wb").write(content)
+    hpath = os.path.join(home, ".config", "wtf", "search_history.json")
+    for k, (parts, verbose) in enumerate(((["--format", "json", "-v"], True), (["--format", "JSON"], False))):
+        fl = dict(limit=0, verbose=verbose, format=parts[1], nocolor=False, platforms=[], all=False, nocross=False)
+        argv = ["--database", dbpath] + parts + ["quoting", "escape"]
+        hist_before = open(hpath, "rb").read() if os.path.exists(hpath) else None
+        rc, out, err, timed_out = run_binary(wtf, argv, base_env(home), cwd)
+        r = SearchRun()
+        r.session, r.k, r.kind, r.qclass, r.argv, r.env_extra, r.fl, r.query = n_sessions, k, "hostile", "lexical", argv, {}, fl, "quoting escape"
+        r.home, r.cwd, r.dbarg, r.dbpath, r.rc, r.out, r.err, r.timed_out = home, cwd, dbpath, dbpath, rc, out, err, timed_out
+        r.hist_kind, r.hist_before, r.ctxkind, r.personal = ("absent" if k == 0 else "keep"), hist_before, "none", False
+        r.hist_after = open(hpath, "rb").read() if os.path.exists(hpath) else None
+        r.env_nocolor = False
+        r.db_content = content
+        runs.append(r)
     # ---- expected answers, in-process, same tree
     reqs = [json.dumps(dict(home=r.home, cwd=r.cwd, db=r.dbarg, query_hex=r.query.encode("utf-8", "surrogateescape").hex(), limit=r.fl["limit"],
                             platforms=r.fl["platforms"], all=r.fl["all"], nocross=r.fl["nocross"], opts=opts_fact)) for r in runs]
@@ -614,6 +756,7 @@ def evaluate(ctx, runs, colors, use_fuzzy=True):
         dist[k] = dist.get(k, 0) + n
 
     n_hyp_bad = 0
+    json_blocks = []
     for idx, r in enumerate(runs):
         e, fl = r.exp, r.fl
         ctx.cov["evaluations"] += 1
@@ -684,6 +827,14 @@ def evaluate(ctx, runs, colors, use_fuzzy=True):
             elif fmt_obs != want_fmt:
                 hit("cli-output-differs-from-engine", "result block has format %s, flags ask for %s" % (fmt_obs, want_fmt))
             elif fmt_obs == "json":
+                # judged a second time, after the loop, by Go's encoding/json (tool c17jsonparse)
+                json_blocks.append((r, block, [[tok(x) for x in [docs[h["id"]].command, docs[h["id"]].description, docs[h["id"]].niche] +
+                                                docs[h["id"]].keywords + docs[h["id"]].platform] for h in answer], what))
+                for h in answer:
+                    d = docs[h["id"]]
+                    for f in [d.command, d.description, d.niche] + ((d.keywords + d.platform) if verbose else []):
+                        for k in json_escapes_needed(f):
+                            tag("json-string." + k)
                 try:
                     arr = json.loads(block.decode("utf-8"))
                     if not isinstance(arr, list) or not all(isinstance(o, dict) for o in arr):
@@ -812,6 +963,23 @@ def evaluate(ctx, runs, colors, use_fuzzy=True):
         if len(ctx.cov["samples"]) < 4 and answer:
             ctx.cov["samples"].append(dict(argv=r.argv, env=r.env_extra, path=path, limit_in_force=limit, printed=[docs[h["id"]].command.decode("utf-8", "replace") for h in answer][:5],
                                            history_newest=[after[-1][0].decode("utf-8", "replace"), after[-1][1]] if after else None))
+    # ---- the JSON blocks, judged by Go's own decoder
+    if json_blocks:
+        reqs = "".join(json.dumps(dict(block_hex=b.hex(), want=len(t), texts_hex=[[x if x != "-" else "" for x in row] for row in t])) + "\n"
+                       for _, b, t, _ in json_blocks)
+        p = subprocess.run([core.HARNESS_BIN, "tool", "c17jsonparse"], input=reqs.encode(), stdout=subprocess.PIPE, stderr=subprocess.PIPE,
+                           env=core.go_env(), timeout=1800)
+        vs = [l for l in p.stdout.decode().split("\n") if l.strip()]
+        ok = p.returncode == 0 and len(vs) == len(json_blocks)
+        ctx.oblige("tool:c17jsonparse", "build", ok, "rc=%d, %d verdicts for %d blocks; stderr: %s" % (p.returncode, len(vs), len(json_blocks), p.stderr.decode(errors="replace")[-1500:]))
+        if ok:
+            for (r, b, t, what), l in zip(json_blocks, vs):
+                v = json.loads(l)
+                tag("json-block.judged-by-encoding/json")
+                if v.get("class"):
+                    cls = "cli-json-malformed" if v["class"] in ("json-block-invalid", "json-block-not-objects") else \
+                          "cli-json-object-count" if v["class"] == "json-block-count" else "cli-output-differs-from-engine" if v["class"] == "json-block-roundtrip" else "cli-json-malformed"
+                    ctx.hit(cls, "%s: Go's encoding/json on the printed block: %s: %s [%s]" % (cls, v["class"], v.get("detail", ""), what[:400]), replay_of(r))
     ctx.add_distribution({"cli." + k: v for k, v in dist.items()})
     # ---- model vs binary
     run = core.Run(ctx, "cli-model")
@@ -838,6 +1006,12 @@ def evaluate(ctx, runs, colors, use_fuzzy=True):
         ta, tb = a.split(" "), b.split(" ")
         names = ["stage", "printed ids", "format", "uses escapes", "history after", "result block"]
         diff = [names[j] for j in range(min(len(ta), len(tb), 6)) if ta[j] != tb[j]] if len(ta) == len(tb) == 6 else ["shape"]
+        if b.startswith("oracle-differs-from-model jsonStr"):
+            diff = ["json.Marshal of a database string differs from Wtf.JsonText.jsonStrModel (the string encoder json_wellformed is about)"]
+        elif b.startswith("numok-violated"):
+            diff = ["the real rendering of a printed score is not a JSON number token (hypothesis NumOK of json_wellformed)"]
+        elif b.startswith("model-block-not-json"):
+            diff = ["the model's own JSON block does not parse back to the expected value (Wtf.JsonText.parseText)"]
         detail = dict(mismatching_cases=len(bad), case=i, differs_in=diff, argv=r.argv, env=r.env_extra,
                       binary=[core.pretty(t) if j in (4, 5) else t for j, t in enumerate(ta)][:6], model=[core.pretty(t) if j in (4, 5) else t for j, t in enumerate(tb)][:6])
         # a difference between model and binary is a broken tie, not by itself a violation of the property: the property is
@@ -850,7 +1024,10 @@ def evaluate(ctx, runs, colors, use_fuzzy=True):
                "engine / recovery answers sorted by score and engine answer within Limit on all %d runs (hypotheses of prints_engine / limit)" % len(runs))
     # every path must have been reached
     need = ["path.engine", "path.recovery", "recovery.cut-by-limit", "recovery.gated-by-platform", "path.nothing", "path.rejected", "format.list", "format.table", "format.json",
-            "no-color.flag", "no-color.env", "colored", "history.replaced-equal-last", "history.must-stay-untouched", "answer-fills-limit"]
+            "no-color.flag", "no-color.env", "colored", "history.replaced-equal-last", "history.must-stay-untouched", "answer-fills-limit",
+            # strings of printed JSON objects that need each class of encoding/json's escapes (Props/C17b)
+            "json-string.quote-backslash", "json-string.html", "json-string.control", "json-string.u2028", "json-string.invalid-utf8",
+            "json-string.astral", "json-string.non-ascii", "json-block.judged-by-encoding/json"]
     if use_fuzzy:
         need.append("path.fuzzy")
     missing = [k for k in need if not dist.get(k)]
@@ -990,7 +1167,7 @@ def subcommand_stream(ctx, wtf, n):
 
 def run(ctx):
     ctx.stage_xlate(required_assertions=ASSERTIONS)
-    ctx.stage_prove(THEOREMS)
+    ctx.stage_prove(THEOREMS, extra_targets=["WtfModel.Props.C17b", "WtfModel.Audit.C17b"])
     if not ctx.stage_build():
         return
     with core.BuildLock():
